@@ -51,6 +51,18 @@ theorem redc_low_zero (B p mu z0 : Nat) (hB : 0 < B) (hmu : (p * mu) % B = B - 1
   have h : (mu * (z0 % B)) % B = (mu * z0) % B := Nat.mul_mod_mod mu z0 B
   rw [h]; exact redc_low_zero0 B p mu z0 hB hmu
 
+/-- room for the first reduction round: this is where `p + B ≤ B*B` is needed -/
+theorem split_room (B p xy pw : Nat) (hB0 : 0 < B) (hpR : p + B ≤ B * B)
+    (h1 : xy + p ≤ (B * B) * p) (h2 : pw + p ≤ p * B) : xy + pw < B ^ 4 := by
+  have h3 : (p + B) * (B * B + B) ≤ (B * B) * (B * B + B) := Nat.mul_le_mul_right _ hpR
+  have e1 : (p + B) * (B * B + B) = p * (B * B) + p * B + B * (B * B) + B * B := by ring
+  have e2 : (B * B) * (B * B + B) = B ^ 4 + B * (B * B) := by ring
+  have e3 : (B * B) * p = p * (B * B) := by ring
+  have hBB : 0 < B * B := Nat.mul_pos hB0 hB0
+  rw [e1, e2] at h3
+  rw [e3] at h1
+  linarith
+
 theorem lt_of_mul_pow_le (B r v : Nat) (hB : 0 < B) (k : Nat) (h : B ^ k * r ≤ v) (hv : v < B ^ (k+1)) :
     r < B := by
   by_contra hc
@@ -60,7 +72,7 @@ theorem lt_of_mul_pow_le (B r v : Nat) (hB : 0 < B) (k : Nat) (h : B ^ k * r ≤
   omega
 
 theorem mulSplit_value (B p mu x y : Nat) (hB : 1 < B) (hp0 : 0 < p) (hpR : p + B ≤ B * B)
-    (hmu : (p * mu) % B = B - 1) (hx : x < p) (hy : y < p) :
+    (hmu : (p * mu) % B = B - 1) (hx : x < B * B) (hy : y < p) :
     ∃ t w, t * (B * B) = x * y + p * w ∧ w < B * B ∧
       mulSplit B p mu x y =
         (let prod := t % (B*B); let cc := t / (B*B);
@@ -154,16 +166,14 @@ theorem mulSplit_value (B p mu x y : Nat) (hB : 1 < B) (hp0 : 0 < p) (hpR : p + 
     linear_combination e13 + e14 + B * e16 + B * e17 + B * e19 + B^2 * e20 + B * ecarry15 + B * e15
       + B^2 * ehi18 + B^2 * e18
   have hT1 : x * y + p * w1 < B^4 := by
-    have h1 : x * y ≤ p * p := Nat.mul_le_mul (by omega) (by omega)
+    have h1 : x * y + p ≤ (B * B) * p := by
+      have a : x * y ≤ x * p := Nat.mul_le_mul_left _ (by omega)
+      have b : (x + 1) * p ≤ (B * B) * p := Nat.mul_le_mul_right _ (by omega)
+      linarith
     have h2 : p * w1 + p ≤ p * B := by
       have : p * (w1 + 1) ≤ p * B := Nat.mul_le_mul_left _ (by omega)
       linarith
-    have h3 : p * p + p * B ≤ p * (B * B) := by
-      have : p * (p + B) ≤ p * (B * B) := Nat.mul_le_mul_left _ hpR
-      linarith
-    have h4 : p * (B * B) < (B * B) * (B * B) := Nat.mul_lt_mul_of_pos_right hpBB (by omega)
-    have e : B^4 = (B*B)*(B*B) := by ring
-    omega
+    exact split_room B p (x * y) (p * w1) hB0 hpR h1 h2
   have hr21 : r21 < B := by
     apply lt_of_mul_pow_le B r21 (x * y + p * w1) hB0 3 _ hT1
     rw [← eT1]
@@ -258,16 +268,15 @@ theorem final_select (R p t : Nat) (hpR : p < R) (ht : t < 2 * p) :
       simp [hcc, hzz, hlt, hs0, h1]
 
 theorem mulSplit_spec (B p mu x y : Nat) (hB : 1 < B) (hp0 : 0 < p) (hpR : p + B ≤ B * B)
-    (hmu : (p * mu) % B = B - 1) (hx : x < p) (hy : y < p) :
+    (hmu : (p * mu) % B = B - 1) (hx : x < B * B) (hy : y < p) :
     mulSplit B p mu x y < p ∧ (mulSplit B p mu x y * (B * B)) % p = (x * y) % p := by
   obtain ⟨t, w, ht, hw, hres⟩ := mulSplit_value B p mu x y hB hp0 hpR hmu hx hy
   have hpBB : p < B * B := by omega
   have ht2 : t < 2 * p := by
-    have h1 : x * y < p * p := Nat.mul_lt_mul'' hx hy
+    have h1 : x * y < (B * B) * p := Nat.mul_lt_mul'' hx hy
     have h2 : p * w < p * (B * B) := (Nat.mul_lt_mul_left hp0).mpr hw
-    have h3 : p * p < p * (B * B) := (Nat.mul_lt_mul_left hp0).mpr hpBB
     have h4 : t * (B * B) < (2 * p) * (B * B) := by
-      have : (2 * p) * (B * B) = p * (B * B) + p * (B * B) := by ring
+      have : (2 * p) * (B * B) = (B * B) * p + p * (B * B) := by ring
       omega
     exact Nat.lt_of_mul_lt_mul_right h4
   rw [hres, final_select (B * B) p t hpBB ht2]
